@@ -149,9 +149,11 @@ def _schedules_other(ctx, rep, n, nperm, nsalt):
                         for i in range(len(im.mods)):
                             out[('mid', k, i)] = [im.mods[i].attrs.get(im.u.res[t]) for t in c12.T] + [
                                 im.mods[i].attrs.get(im.u.misc)]
+                sh = im.fit.ship
+                # the ship first (before any hardener attribute is read), then the hardeners, then the ship again
+                out['ship-first'] = None if sh is None else [sh.attrs.get(im.u.res[t]) for t in c12.T]
                 for i in range(len(im.mods)):
                     out[('rah', i)] = [im.mods[i].attrs.get(im.u.res[t]) for t in c12.T]
-                sh = im.fit.ship
                 out['ship'] = None if sh is None else [sh.attrs.get(im.u.res[t]) for t in c12.T]
                 out['ehp'] = SW._guard(lambda: list(im.fit.stats.get_ehp(None))[:3])
             return out
@@ -200,6 +202,9 @@ def _schedules_other(ctx, rep, n, nperm, nsalt):
             {'op': 'imp', 'k': 'ship:em', 'v': 0.875}, {'op': 'imp', 'k': 'ship:em', 'v': None},
             {'op': 'imp', 'k': 'g1shift+g2misc', 'v': 2.0}]}
         jobs.append(('rah-designed', first, rah_body(designed)))
+    # designed: the hardeners are fitted before the ship arrives (the ship's load message reaches simulator and calculator)
+    jobs.append(('rah-designed', 'ship-last', rah_body({'pen': False, 'ops': [dict(ok, op='add'), dict(ok, op='add', cyc=7000),
+                                                                          {'op': 'ship', 'v': [0.5, 0.65, 0.75, 0.9]}]})))
     for k in range(n):
         jobs.append(('rah', k, rah_body(c12.gen_history(rnd))))
         jobs.append(('restr', k, restr_body(rnd.randrange(10 ** 9), k)))
@@ -213,7 +218,7 @@ def _schedules_other(ctx, rep, n, nperm, nsalt):
         if not W.flat_equal(_flat(ref), _flat(again)):
             rep.violate('running the same %s program twice differs' % kind, {'world': kind, 'k': k})
             continue
-        for name, pol, salt in _variants('%s/%d' % (kind, k), nperm, nsalt):
+        for name, pol, salt in _variants('%s/%s' % (kind, k), nperm, nsalt):
             got = _under(pol, salt, body)
             rep.case(sig=(kind, k, name), kind='schedule-%s-%s' % (kind, name.split(':')[0]))
             bad = [key for key in ref if not W.flat_equal(_flat(ref[key]), _flat(got.get(key)))]
